@@ -147,6 +147,8 @@ func (g *SG) simple() Stmt {
 		var e Expr = ilit(int64(r.Intn(4) + 1))
 		if op != "/=" && r.Intn(2) == 0 {
 			e = g.smallInt(1)
+		} else if r.Intn(4) == 0 {
+			e = &CallE{Name: "idn", Args: []Expr{ilit(int64(r.Intn(4) + 1))}} // the right side is a call
 		}
 		return &Assign{Target: g.intVar(), Op: op, E: e}
 	case 5:
@@ -218,6 +220,9 @@ func (g *SG) stmt(nest int, inLoop, mayReturn bool) []Stmt {
 		g.Stats["if"]++
 		x := &If{Cond: g.cond(1), Then: g.Block(nest+1, inLoop, true)}
 		ne := r.Intn(3)
+		if r.Intn(6) == 0 {
+			ne = 4 + r.Intn(3) // a long chain
+		}
 		for i := 0; i < ne; i++ {
 			g.Stats["elseif"]++
 			x.ElseIfs = append(x.ElseIfs, ElseIf{Cond: g.cond(1), Body: g.Block(nest+1, inLoop, true)})
